@@ -35,8 +35,9 @@ def read_line_info(fn):
         if t and "switch" in t:
             sw = t["switch"]
             tm = {v: tb for v, tb in sw["targets"]}
-            if 0 in tm:
-                ok_blk, err_blk = tm[0], tm.get(1, sw["otherwise"])
+            # discriminant of the io::Result: 0 = Ok, 1 = Err (either may be the `otherwise` edge)
+            if 0 in tm or 1 in tm:
+                ok_blk, err_blk = tm.get(0, sw["otherwise"]), tm.get(1, sw["otherwise"])
             break
         b = cfg.succ[b][0] if cfg.succ[b] else None
     # Ok(len): the test that separates an empty read (len == 0) from a non-empty one. Any comparison of len with a constant is
@@ -44,14 +45,20 @@ def read_line_info(fn):
     nz_blk = zero_blk = None
     nz_all = []
     if ok_blk is not None:
-        b = ok_blk
+        # breadth-first from the Ok outcome (through drop-flag and discriminant switches the compiler or a refactoring puts in
+        # between) to the first block that compares a value with a constant and branches on it
+        from collections import deque
+        q = deque([(ok_blk, 0)])
         seen = set()
-        while b is not None and b not in seen:
+        while q:
+            b, d = q.popleft()
+            if b in seen or d > 14 or b == i or fn["blocks"][b]["cleanup"]:
+                continue
             seen.add(b)
             blk = fn["blocks"][b]
             t = blk["term"]
+            cmpst = None
             if t and "switch" in t:
-                cmpst = None
                 for st_ in blk["stmts"]:
                     if "assign" in st_ and "bin" in st_["assign"][1] and st_["assign"][1]["bin"][0] in _CMPS:
                         op, x, y = st_["assign"][1]["bin"]
@@ -59,19 +66,22 @@ def read_line_info(fn):
                             cmpst = (op, y["const"]["int"], False)
                         elif "const" in x and x["const"].get("int") is not None:
                             cmpst = (op, x["const"]["int"], True)
-                if cmpst:
-                    sw = t["switch"]
-                    tm = {v: tb for v, tb in sw["targets"]}
+            if cmpst:
+                sw = t["switch"]
+                tm = {v: tb for v, tb in sw["targets"]}
 
-                    def tgt(n):
-                        op, k, swapped = cmpst
-                        r = _CMPS[op](k, n) if swapped else _CMPS[op](n, k)
-                        return tm.get(1 if r else 0, sw["otherwise"])
-                    zero_blk = tgt(0)
-                    nz_all = sorted(set(tgt(n) for n in (1, 2, 3, 16, 31, 1 << 20)))
-                    nz_blk = nz_all[0] if nz_all == [x for x in nz_all if x != zero_blk] and len(nz_all) == 1 else (nz_all[0] if nz_all else None)
+                def tgt(n):
+                    op, k, swapped = cmpst
+                    r = _CMPS[op](k, n) if swapped else _CMPS[op](n, k)
+                    return tm.get(1 if r else 0, sw["otherwise"])
+                zero_blk = tgt(0)
+                nz_all = sorted(set(tgt(n) for n in (1, 2, 3, 16, 31, 1 << 20)))
+                nz_blk = nz_all[0] if nz_all else None
                 break
-            b = cfg.succ[b][0] if len(cfg.succ[b]) == 1 else None
+            if t and "call" in t and "path" in t["call"]["callee"]:
+                continue        # the length test comes before any further call
+            for nb in cfg.succ[b]:
+                q.append((nb, d + 1))
     return {"block": i, "buf": buf, "ok": ok_blk, "err": err_blk, "nonzero": nz_blk, "nonzero_all": nz_all, "zero": zero_blk, "dest": dest}
 
 
@@ -274,6 +284,21 @@ def disconnect_rule(rep, prog):
         rep.instance(rid, "disconnect-flag", sample={"zero_length_block": info["zero"], "sets_quit": wrote})
         if not wrote:
             rep.violation("R4", "radar:disconnect-not-flagged", "read_line returning Ok(0) (server closed the connection) does not set the quit reason")
+    if info and info["zero"] is not None and info["err"] is not None:
+        # a failed read (timeout in the middle of a line, a line that is not valid UTF-8, ...) is not a disconnect: from the Err outcome
+        # the disconnect handling must not be reachable before the next read
+        flag_blocks = []
+        for b in cfg.reachable(info["zero"], avoid=[info["block"]]):
+            if not cfg.dominates(info["zero"], b):
+                continue        # only the flagging that belongs to the zero-length outcome
+            for s in fn["blocks"][b]["stmts"]:
+                if "assign" in s and s["assign"][0]["proj"] and s["assign"][0]["proj"][-1].get("name") == "quit":
+                    flag_blocks.append(b)
+        reach_err = cfg.reachable(info["err"], avoid=[info["block"]])
+        hit = [b for b in flag_blocks if b in reach_err]
+        rep.instance(rid, "err-is-not-disconnect", sample={"err_block": info["err"], "disconnect_flag_blocks": flag_blocks, "reachable_from_err": hit})
+        if hit:
+            rep.violation("R4", "radar:error-treated-as-disconnect", "a read_line error (e.g. a line that is not valid UTF-8) reaches the disconnect handling at %s: the client quits or reconnects although the server is still there, and the following lines are lost" % line_of(fn, hit[0]), site=line_of(fn, hit[0]))
     news = blocks_calling(fn, lambda p, full, c: p == "rsadsb_common::Airplanes::new")
     rep.instance(rid, "tracker-created", sample={"Airplanes::new call sites": len(news)})
     if len(news) != 1:
